@@ -10,6 +10,7 @@ ENG = {
     "poolfuzz": {"name": "poolfuzz", "sources": ["poolfuzz.c"]},
     "rngdet": {"name": "rngdet", "sources": ["rngdet.c"]},
     "rngsamp": {"name": "rngsamp", "sources": ["rngsamp.c"]},
+    "evfuzz": {"name": "evfuzz", "sources": ["evfuzz.c"]},
     "corofuzz": {"name": "corofuzz", "sources": ["corofuzz.c", "probe.S"]},
     "statcheck": {"name": "statcheck", "sources": ["statcheck.c"], "extra_ldflags": "-lquadmath"},
 }
@@ -106,6 +107,31 @@ PROPS["C16"] = {
                     "samplers are driven from the dispatcher context (FP exceptions masked) so NaN results are observed rather than trapped"],
 }
 
+PROPS["C01"] = {
+    "engines": ENG,
+    "jobs": [
+        J("ev-mixed", "evfuzz", "rel", 0, 3000, 300000),
+        J("ev-ties", "evfuzz", "rel", 1, 3000, 300000),
+        J("ev-large", "evfuzz", "rel", 2, 60, 4000, timeout=120),
+        J("ev-mixed-asan", "evfuzz", "asan", 0, 500, 20000),
+        J("ev-ties-asan", "evfuzz", "asan", 1, 500, 20000),
+        J("ev-large-asan", "evfuzz", "asan", 2, 16, 400, timeout=180),
+    ],
+    "rule": ("one case = a random history of schedule / cancel (pending, executed, cancelled, never-issued handles, also on an empty "
+             "queue) / reschedule / reprioritise / pattern-cancel / clear, issued from the dispatcher and - about half - from inside running "
+             "actions, interleaved with execute_next; times from a lattice with zero increments, 1e-300 steps, nextafter, 1e300, start "
+             "time in {0,-100,1e12}; priorities over int64 incl. MIN/MAX; 3-element action/subject/object alphabets; populations up to "
+             "1024+; oracle = reference multiset ordered by (time asc, priority desc, handle asc): every action must be the model minimum, "
+             "clock == its time, current-event query == its handle throughout the action, queries agree after every op, exactly-once at "
+             "drain; distinct = FNV of (profile, population target) + per-case path; non-trivial = >=1 executed time tie and >=1 in-action mutation"),
+    "headline": ["events_executed", "time_ties_executed", "time_priority_ties_resolved_by_handle", "mutations_from_inside_actions",
+                 "op_schedule", "op_cancel_live", "op_cancel_dead", "op_cancel_on_empty_queue", "op_reschedule", "op_reprioritize",
+                 "op_pattern_cancel", "pattern_cancel_multi", "queue_clear_from_action", "queue_growths", "max_queue_capacity", "query_rounds"],
+    "min_observed": {"quick": {"time_priority_ties_resolved_by_handle": 5000, "mutations_from_inside_actions": 20000, "queue_growths": 500,
+                               "op_cancel_on_empty_queue": 100}},
+    "assumptions": ["event times passed to schedule/reschedule are finite and >= the current time (documented precondition)",
+                    "time/priority/reschedule/reprioritize queries are only made for handles that are pending (documented precondition)"],
+}
 PROPS["C03"] = {
     "engines": ENG,
     "jobs": [
@@ -209,6 +235,13 @@ MANIFEST_TEXT = {
         "note": "Trusts scipy reference distributions; finite samples: a distortion smaller than ~1e-3 in CDF (quick) is not visible.",
         "technique": "runtime monitoring: per-draw support oracle + goodness-of-fit monitors (KS/chi-square/moments/tails) over seeded samples, two-stage thresholds",
         "design_ref": "DESIGN.md 4/C16",
+    },
+    "C01": {
+        "level": ("Exploration of operation histories on the real event queue against a reference multiset with the specified total "
+                  "order; every executed action and a sample of the query surface after every operation is judged; held on the histories run."),
+        "note": "Trusts the 30-line reference ordering in evfuzz.c; fingerprints measure distinct histories coarsely (per-case RNG path).",
+        "technique": "runtime monitoring: online order/exactly-once monitor against a reference model, hooked inside event actions, also under ASan/UBSan",
+        "design_ref": "DESIGN.md 4/C01",
     },
     "C03": {
         "level": ("Exploration of coroutine interleavings with exact-equality oracles on callee-saved registers, MXCSR, stack canaries "
